@@ -20,6 +20,11 @@ from dv import hyp, libbuild as L, refcodec as R, strategies as S
 from dv.common import HarnessError, derive_seed, fp
 from dv.evidence import Recorder, finish
 from checks.c02 import all_subclasses
+import diameter.message            # noqa: E402,F401  (the codec's module state is recorded before its first use)
+import diameter.message.commands   # noqa: E402,F401
+from dv import codecthreads as CT
+
+PRISTINE = CT.ModuleState()
 
 PID = "C03"
 RULE = ("programs: every typed message class and every grouped container class (discovered "
@@ -662,6 +667,66 @@ def untyped_message(draw, inv, codes):
 
 
 # --------------------------------------------------------------------------
+def check_concurrent(inv: Inv, t, rec: Recorder):
+    """Typed messages are decoded (and one is built and encoded) by two or three threads at once, from the module
+    state of a fresh process: every thread's result is the one it gets when the same calls run one after the other."""
+    from diameter.message import Message
+    spec_a, spec_b, same, seed, p = t
+    if same:
+        spec_b = spec_a
+    if uses_bad_class(inv, spec_a) or uses_bad_class(inv, spec_b):
+        rec.excluded["class-with-static-finding"] += 1
+        return
+    case = {"concurrent": True, "a": spec_a, "b": spec_b, "seed": seed, "p": p}
+    try:
+        bufs = []
+        for sp in (spec_a, spec_b):
+            o = build_obj(inv, sp)
+            o.header.hop_by_hop_identifier, o.header.end_to_end_identifier = 0x11223344, 0x55667788
+            bufs.append(o.as_bytes())
+    except Exception:
+        rec.excluded["concurrent:sequential-encode-raises"] += 1      # reported by the sequential part
+        return
+
+    def decode(buf, k):
+        m = Message.from_bytes(buf)
+        shape = tuple((d.attr_name, type(getattr(m, d.attr_name, None)).__name__,
+                       len(getattr(m, d.attr_name)) if isinstance(getattr(m, d.attr_name, None), (list, bytes, str)) else -1)
+                      for (_, d, *_r) in inv.defs(k) if hasattr(d, "attr_name"))
+        return type(m).__name__, shape, m.as_bytes()
+
+    def build():
+        o = build_obj(inv, spec_a)
+        o.header.hop_by_hop_identifier, o.header.end_to_end_identifier = 0x11223344, 0x55667788
+        return o.as_bytes()
+    tasks = [lambda: decode(bufs[0], inv.by_name[spec_a["cls"]]), lambda: decode(bufs[1], inv.by_name[spec_b["cls"]])]
+    if seed % 3 == 0:
+        tasks.append(build)
+    conc, seq, taken, errs = CT.concurrent_vs_sequential(tasks, PRISTINE, seed, p, 6)
+    for i, (c, s_) in enumerate(zip(conc, seq)):
+        if c != s_:
+            what = "decode" if i < 2 else "build"
+            if c[0] != "ok":
+                kind = f"{what}-fails/{c[1]}"
+                detail = f"thread {i}: {c} where the sequential call gives {s_[0]}"
+            elif s_[0] != "ok":
+                kind, detail = f"{what}-differs", f"thread {i}: succeeds where the sequential call raises {s_[1]}"
+            elif what == "decode" and c[1][:2] != s_[1][:2]:
+                diff = [(x, y) for x, y in zip(c[1][1], s_[1][1]) if x != y][:3]
+                kind, detail = "decode-differs/attributes", f"thread {i} ({c[1][0]}): attributes (name, type, length) {diff} (concurrent, sequential)"
+            else:
+                a_, b_ = (c[1][2], s_[1][2]) if what == "decode" else (c[1], s_[1])
+                kind, detail = f"{what}-differs/bytes", f"thread {i}: re-encodes to {len(a_)} bytes, sequentially {len(b_)} bytes"
+            rec.violation(f"C03/concurrent/{kind}", case, detail + f"; schedule {taken}")
+            break
+    for e in errs:
+        rec.violation("C03/concurrent/thread-error", case, e[:300])
+    rec.case(fp("conc", hash(bufs[0]), hash(bufs[1]), tuple(sorted(taken.items()))) if taken else None,
+             ["mode:concurrent", f"concurrent:same-class:{spec_a['cls'] == spec_b['cls']}", f"concurrent:tasks:{len(tasks)}",
+              f"concurrent:switches:{min(len(taken), 6)}"],
+             sample=lambda: {"classes": [spec_a["cls"], spec_b["cls"]], "schedule": {str(i): c for i, c in taken.items()}})
+
+
 def shard_main(shard, nshards, tier, scale):
     from diameter.message import DefinedMessage
     from diameter.message.commands import all_commands
@@ -718,6 +783,17 @@ def shard_main(shard, nshards, tier, scale):
     n_un = int((8000 if thorough else 500) * scale)
     hyp.run_given(untyped_message(inv, codes), lambda ms: check_untyped(inv, ms, rec), n_un,
                   derive_seed(PID, "untyped", shard), rec=rec)
+    # concurrent use (last: the preemption points slow the codec down)
+    info = CT.install_points()
+    if shard == 0:
+        rec.extra["concurrent_preemption_functions"] = len(info)
+    cstrat = st.tuples(st.sampled_from(msgs_only).flatmap(lambda k: obj_spec(inv, k, 0)),
+                       st.sampled_from(msgs_only).flatmap(lambda k: obj_spec(inv, k, 0)),
+                       st.booleans(), st.integers(0, 1 << 30), st.sampled_from([0.02, 0.08, 0.3]))
+    hyp.run_given(cstrat, lambda t: check_concurrent(inv, t, rec), int((3000 if thorough else 200) * scale),
+                  derive_seed(PID, "concurrent", shard), rec=rec)
+    from dv import sched as _sched
+    _sched.clear()
     d = rec.dump()
     d["extra"]["_defs"] = sorted(rec.extra.get("_defs", set()))
     return d
@@ -741,7 +817,7 @@ def run(tier, scale=1.0):
     rec.extra["definitions_excluded_by_static_findings"] = len(inv.bad_defs)
     if missing:
         rec.extra["definitions_not_covered"] = [".".join(m) for m in missing[:20]]
-    required = {"mode:encode-after-failed-encode": 1, "failed-encode:raised": 1, "mode:change-after-encode": 1, "mode:single": 1, "mode:subset": 1, "mode:all": 1, "mode:none": 1, "kind:container": 1,
+    required = {"mode:concurrent": 1, "concurrent:same-class:True": 1, "concurrent:tasks:3": 1, "concurrent:switches:6": 1, "mode:encode-after-failed-encode": 1, "failed-encode:raised": 1, "mode:change-after-encode": 1, "mode:single": 1, "mode:subset": 1, "mode:all": 1, "mode:none": 1, "kind:container": 1,
                 "kind:message": 1, "kind:untyped": 1, "with-extra": 1, "extra-code-collision": 1, "nest:4": 1,
                 "untyped:repeat": 1, "untyped:grouped": 1}
     rc = finish(rec, tier=tier, level="exploration", rule=RULE, assumptions=ASSUME, t0=t0,
@@ -758,7 +834,10 @@ def replay(doc):
     inv = Inv()
     static_check(inv, rec)
     case = doc["case"]
-    if "cls" in case:
+    if case.get("concurrent"):
+        CT.install_points()
+        check_concurrent(inv, (case["a"], case["b"], False, case["seed"], case["p"]), rec)
+    elif "cls" in case:
         check_typed(inv, case, rec, "replay")
     elif "avps" in case:
         check_untyped(inv, case, rec)
